@@ -269,43 +269,49 @@ theorem fin_step_inv (L : List Loader) (_hwf : LoadersWF L) (σ : Fin) (e : FinE
   | joined d =>
     simp only [Fin.step] at hs
     split at hs
-    · rename_i l hl hph
-      cases hs
-      constructor
-      · refine core_frame hc ?_ ?_ rfl rfl rfl
-        · intro x
-          refine owesD_setAt_same L σ.phase d _ ?_ x
-          intro l' hl'; rw [hl] at hl'; cases hl'; rw [hph]; rfl
-        · intro x
-          refine popping_setAt_same σ.phase d _ ?_ x
-          rw [hph]; rfl
-      · refine ⟨?_, ?_, ?_, ?_, ?_⟩
-        · intro x hx
-          have : x ≠ d := by intro h; rw [h, hl] at hx; cases hx
-          simp only [setAt_other _ _ _ _ this]; exact habs x hx
-        · intro x
-          by_cases hx : x = d
-          · subst hx; simp
-          · simp only [setAt_other _ _ _ _ hx]; exact hnf x
-        · intro x g t
-          by_cases hx : x = d
-          · subst hx; simp
-          · simp only [setAt_other _ _ _ _ hx]; exact hnr x g t
-        · intro x l' hl' g hg
-          by_cases hx : x = d
-          · subst hx
-            rw [hl] at hl'; cases hl'
-            simp only [setAt_same, owes] at hg; exact hg
-          · simp only [setAt_other _ _ _ _ hx] at hg; exact hsub x l' hl' g hg
-        · intro x l' hl'
-          by_cases hx : x = d
-          · subst hx
-            rw [hl] at hl'; cases hl'
-            simp only [setAt_same]
-            have h0 := (hwr x l hl).2.1 [] hph
-            simp only [append_nil] at h0
-            refine ⟨(fun h => by cases h), (fun t ht => by cases ht), fun _ => h0⟩
-          · simp only [setAt_other _ _ _ _ hx]; exact hwr x l' hl'
+    · rename_i l todo0 hl hph
+      have hjoin : Gen.loaderJoinsWritersFirst = true := by decide
+      simp only [hjoin, Bool.not_true, Bool.or_false, isEmpty_iff] at hs
+      split at hs
+      · rename_i htodo
+        subst htodo
+        cases hs
+        constructor
+        · refine core_frame hc ?_ ?_ rfl rfl rfl
+          · intro x
+            refine owesD_setAt_same L σ.phase d _ ?_ x
+            intro l' hl'; rw [hl] at hl'; cases hl'; rw [hph]; rfl
+          · intro x
+            refine popping_setAt_same σ.phase d _ ?_ x
+            rw [hph]; rfl
+        · refine ⟨?_, ?_, ?_, ?_, ?_⟩
+          · intro x hx
+            have : x ≠ d := by intro h; rw [h, hl] at hx; cases hx
+            simp only [setAt_other _ _ _ _ this]; exact habs x hx
+          · intro x
+            by_cases hx : x = d
+            · subst hx; simp
+            · simp only [setAt_other _ _ _ _ hx]; exact hnf x
+          · intro x g t
+            by_cases hx : x = d
+            · subst hx; simp
+            · simp only [setAt_other _ _ _ _ hx]; exact hnr x g t
+          · intro x l' hl' g hg
+            by_cases hx : x = d
+            · subst hx
+              rw [hl] at hl'; cases hl'
+              simp only [setAt_same, owes] at hg; exact hg
+            · simp only [setAt_other _ _ _ _ hx] at hg; exact hsub x l' hl' g hg
+          · intro x l' hl'
+            by_cases hx : x = d
+            · subst hx
+              rw [hl] at hl'; cases hl'
+              simp only [setAt_same]
+              have h0 := (hwr x l hl).2.1 [] hph
+              simp only [append_nil] at h0
+              refine ⟨(fun h => by cases h), (fun t ht => by cases ht), fun _ => h0⟩
+            · simp only [setAt_other _ _ _ _ hx]; exact hwr x l' hl'
+      · cases hs
     · cases hs
   | remove d f =>
     simp only [Fin.step] at hs
